@@ -77,6 +77,9 @@ type OpSpec struct {
 	Eager     bool           `json:"eager,omitempty"`
 	NoStrip   bool           `json:"no_strip,omitempty"`
 	Stop      bool           `json:"stop_on_failed,omitempty"`
+	// Leaves (C04): the operation's last configuration line is the de-escalate command of its level:
+	// the device is one level further down when the operation returns
+	Leaves bool `json:"leaves,omitempty"`
 	// ShareKey: the caller keeps the objects it passes to this operation (the interactive events)
 	// and passes the very same objects to every other operation of the run with the same key --
 	// also on another connection (Session.Prior)
